@@ -975,6 +975,14 @@ lazy_static! {
   static ref EIGHT_CHAR_PROVIDER: Arc<Mutex<Box<dyn EightCharProvider + Sync + Send + 'static>>> = Arc::new(Mutex::new(Box::new(DefaultEightCharProvider::new())));
 }
 
+/// verification hook: clear the poison flag of the process-wide locks of this module (the reference
+/// answers of the history-independence check are computed from a pristine lock state)
+#[cfg(feature = "verif-hooks")]
+pub fn verif_clear_poison() {
+  LUNAR_MONTH_CACHE.clear_poison();
+  EIGHT_CHAR_PROVIDER.clear_poison();
+}
+
 /// 农历时辰
 #[derive(Debug, Clone)]
 pub struct LunarHour {
